@@ -53,7 +53,7 @@ DESCRIPTION = {
     ],
     "required_probes": {
         "quick": ["two_defaults_in_flight", "import_time_default_differs", "env_flip_during_scoped", "history_s1_s2_none", "mechanism_env_after_import",
-                  "mechanism_scoped", "mechanism_preimport", "no_default_placeholder"],
+                  "mechanism_scoped", "mechanism_preimport", "no_default_placeholder", "retry_after_failed_evaluation"],
         "thorough": ["two_defaults_in_flight", "import_time_default_differs", "env_flip_during_scoped", "history_s1_s2_none"],
     },
 }
@@ -148,6 +148,13 @@ def reference(arg: dict) -> dict:
     return {"runs": [{"refs": out}]}
 
 
+def _dispatch_tap(event, payload):
+    t = current()
+    h = t.ctx.get("tap") if t is not None else None
+    if h is not None:
+        h(event, payload)
+
+
 def _desc(tid):
     if tid.startswith("corpus:"):
         it = corpus()[int(tid.split(":")[1])]
@@ -201,7 +208,46 @@ def run_one(spec: dict) -> dict:
         tid, S, mech = st["tpl"], st["S"], st["mech"]
         sched.yield_point("op", "analyse")
         others = {v for k, v in in_scoped.items() if k != t.idx and v is not None}
-        if mech == "scoped":
+        if mech == "scoped" and st.get("retry_after") is not None and not tid.startswith("corpus:"):
+            # history on ONE runner object: a first evaluation under another default is interrupted at its second
+            # statement (an exception out of the statement tap), then the same runner is evaluated again under S
+            from sqllineage.runner import LineageRunner
+            from sqllineage.utils import verif as tapmod
+
+            probe("retry_after_failed_evaluation")
+            in_scoped[t.idx] = S
+            runner = LineageRunner(render(TPL[tid][2], None), dialect=TPL[tid][1])
+            me = t
+
+            def tap(event, payload):
+                if event == "stmt.begin" and payload.get("index") == 1 and current() is me and payload.get("runner") is runner:
+                    raise RuntimeError("injected: first evaluation interrupted")
+
+            first = st["retry_after"]
+            # one process-wide tap dispatcher; the handler itself is per simulated thread (another thread's retry
+            # step must neither replace nor remove this one's)
+            tapmod.set_tap(_dispatch_tap)
+            t.ctx["tap"] = tap
+            try:
+                if first == "none":
+                    try:
+                        runner.statements()
+                    except RuntimeError:
+                        pass
+                else:
+                    with SQLLineageConfig(DEFAULT_SCHEMA=first):
+                        try:
+                            runner.statements()
+                        except RuntimeError:
+                            pass
+            finally:
+                t.ctx["tap"] = None
+            env_before = env_now[0]
+            with SQLLineageConfig(DEFAULT_SCHEMA=S):
+                got = canon.dump(runner, ACC)
+            in_scoped[t.idx] = None
+            eff = S
+        elif mech == "scoped":
             probe("mechanism_scoped")
             in_scoped[t.idx] = S
             if others and any(o != S for o in others):
@@ -377,7 +423,13 @@ def gen(seed) -> dict:
         for _ in range(n):
             prog = []
             for _ in range(g.choice([1, 2, 3])):
-                prog.append({"tpl": g.choice(tids), "S": g.choice(schemas), "mech": "scoped"})
+                st = {"tpl": g.choice(tids), "S": g.choice(schemas), "mech": "scoped"}
+                if g.random() < 0.15:
+                    multi = [t for t in tids if not t.startswith("corpus:") and ";" in TPL[t][2]]
+                    if multi:
+                        st["tpl"] = g.choice(multi)
+                        st["retry_after"] = g.choice([x for x in SCHEMAS if x != st["S"]] + ["none"])
+                prog.append(st)
             threads.append(prog)
         if g.random() < 0.6:
             operator = [g.choice(SCHEMAS + [None, "imp"]) for _ in range(g.choice([2, 3, 4, 6]))]
@@ -416,6 +468,9 @@ def sweep() -> list[dict]:
                 progs.append({"tpl": tid, "S": S, "mech": "scoped"})
                 progs.append({"tpl": tid, "S": S, "mech": "env"})
             progs.append({"tpl": tid, "S": pre, "mech": "preimport" if pre else "none"})
+            if ";" in _s:
+                progs.append({"tpl": tid, "S": "s1", "mech": "scoped", "retry_after": "zz9"})
+                progs.append({"tpl": tid, "S": "used", "mech": "scoped", "retry_after": "none"})
             n += 1
             out.append({"seed": 9000 + n, "pre_env": ({ENVVAR: pre} if pre else {}), "hash_seed": 0, "threads": [progs], "operator": [],
                         "sched": "sticky", "line": False})
